@@ -21,7 +21,7 @@ falsifier       on the real code only: integer oracles of the property on the ex
                 ASan/UBSan build with C99 shift rules (F14 stays repaired); the Lean witnesses of F13 (must end at the
                 requested ratio) and of F35 (must run through the asserts-on build, streams aligned) replayed.
 """
-import json, math, os, tempfile, glob, hashlib
+import json, math, os, re, tempfile, glob, hashlib
 from concurrent.futures import ThreadPoolExecutor
 import numpy as np
 from vlib import common
@@ -612,6 +612,9 @@ WITNESSES = {
 }
 # Properties/C16.lean opsF35 (`proc il ol` takes min(ceil(ol * 8), il) frames: 800, 800, 2500)
 WITNESS_F35 = ["create 8", "ratio 0.25 0", "proc 3000 100", "ratio 6 0", "proc 1200 100", "ratio 1 800", "proc 2500 1400"]
+# F36 (found by C07, seed 3): 0.67 -> 8.77 in one frame, then one call of 3630 frames that takes three up-switches
+WITNESS_F36 = ["create 16", "ratio 0.6712862513901316 0", "ratio 8.772572708703153 1", "proc 1023 117", "proc 31850 10259", "proc 2048 481"]
+UBSAN_F36 = "left shift of negative value"
 
 
 def witness_stage(ctx, exe, fails, known):
@@ -759,7 +762,13 @@ def schedule_stage(ctx, exe, tmp, n, fails):
 # gcc does not instrument `negative << n` under the repository's -std=gnu89 (C90 leaves it defined); C99 rules do.
 common.VARIANTS.setdefault("san99", common.VARIANTS["san"] + " -std=gnu99")
 SAN = "san99"
-SAN_ENV = dict(os.environ, ASAN_OPTIONS="detect_leaks=0:abort_on_error=0", UBSAN_OPTIONS="print_stacktrace=0")
+SAN_ENV = dict(os.environ, ASAN_OPTIONS="detect_leaks=0:abort_on_error=0", UBSAN_OPTIONS="print_stacktrace=1")
+
+
+def frame0(err):
+    """function of the innermost frame of the first sanitizer report"""
+    m = re.search(r"#0 \S+ in (\w+)", err)
+    return m.group(1) if m else ""
 
 
 def san_stage(ctx, exe_san, fails, known):
@@ -768,6 +777,7 @@ def san_stage(ctx, exe_san, fails, known):
     (F14, UBSan `left shift of negative value`); the repaired code shifts the unsigned representation, so every run must
     be clean.  Returns F14 reproductions (the repair was reverted)."""
     hits = []
+    f36 = []
     cases = []
     # downward slews across every octave boundary of an 8x engine, and upward ones
     for hi, lo in [(6.0, 3.0), (3.0, 1.5), (1.5, .7), (7.9, .3)]:
@@ -777,6 +787,7 @@ def san_stage(ctx, exe_san, fails, known):
         rng = common.Rng(ctx.rng.next())
         mx, ops = V.gen_traj(rng, 120, small=True)
         cases.append(ops)
+    cases.append(WITNESS_F36)
 
     def one(ops):
         mx = float(ops[0].split()[1])
@@ -785,13 +796,26 @@ def san_stage(ctx, exe_san, fails, known):
         stops = [x for x in (info["mis"], info["wild"]) if x is not None]     # asserts are on: stop before an F35 abort
         ops2 = ops[:min(stops)] if stops else ops
         rc, lines, err = V.run_harness(exe_san, ops2, env=SAN_ENV)
+        info["answers"] = len(V.split_real(lines)[1])
+        info["answers_through_under"] = sum(len(g) for g in mo[:info["under"] + 1]) if info["under"] is not None else None
         return ops2, info, rc, err, lines
     with ThreadPoolExecutor(common.NCPU) as ex:
         res = list(ex.map(one, cases))
     for ops, info, rc, err, lines in res:
         ctx.count("evaluations")
         ctx.hist("sanitizer_runs", "with a left shift of a negative value (model)" if info["shl"] is not None else "without")
-        is_shift = "left shift of negative value" in err and "vr32.c" in err
+        is_shift = "left shift of negative value" in err and "vr32.c" in err and frame0(err) == "vr_process"
+        # F36, by the model's signature: some half-band stage was left below its preload (info["under"]: the op after which), the
+        # report is the negative shiftl(already_done, sign) of do_input_stage, and it comes in a later call, not before
+        if info["under"] is not None:
+            ctx.count("sanitizer_runs_with_stage_below_preload_in_model")
+        if rc and UBSAN_F36 in err and frame0(err) == "do_input_stage" and info["under"] is not None and \
+                info["answers"] >= info["answers_through_under"]:
+            m = [l for l in err.splitlines() if "runtime error" in l][:1]
+            f36.append("more than one up-switch inside one vr_process (model: %d switches in a call; a stage below its preload after op %d): %s" % (
+                info["max_sw"], info["under"], m[0].strip() if m else UBSAN_F36))
+            if "F36" in known:
+                continue
         if rc == 0:
             if info["shl"] is not None:
                 ctx.count("negative_left_shifts_clean_under_ubsan")
@@ -808,7 +832,7 @@ def san_stage(ctx, exe_san, fails, known):
             fails.append(dict(kind="sanitizer", what="ASan/UBSan report (model predicts a negative left shift: %s): %s" % (
                 info["shl"] is not None, err[-500:]), ops=ops))
     ctx.count("sanitizer_runs_total", len(res))
-    return hits
+    return hits, f36
 
 
 # ====================================================================== verdicts
@@ -893,7 +917,7 @@ def run(ctx):
     exe_san = common.build_harness("vr_trace", ["vr/trace.c"], variant=SAN)
     known = known_ids()
     fails = []
-    f13_hits, f12_hits, f14_hits, f35_hits = [], [], [], []
+    f13_hits, f12_hits, f14_hits, f35_hits, f36_hits = [], [], [], [], []
     model_ok = os.path.exists(V.MODEL)
 
     if model_ok:
@@ -914,13 +938,15 @@ def run(ctx):
         numeric_tours(ctx, exe_rel, tmp, 10 if ctx.quick else 300, fails)
         f12_hits = schedule_stage(ctx, exe_rel, tmp, 12 if ctx.quick else 200, fails)
     if model_ok:
-        f14_hits = san_stage(ctx, exe_san, fails, known)
+        f14_hits, f36_hits = san_stage(ctx, exe_san, fails, known)
 
     # ---- known findings: a hit counts as known only with its specific signature and an active entry
     for fid, hits, text in (("F13", f13_hits, "soxr_set_io_ratio(r, 0) during an unfinished slew (or before its snap) does not cancel it: "),
                             ("F12", f12_hits, "VR output depends on the request sizes when a stage switch is taken: "),
                             ("F14", f14_hits, "UBSan: left shift of a negative value at a stage switch (vr32.c lshift): "),
-                            ("F35", f35_hits, "the two cross-faded streams get out of step (vr32.c assert(odone == odone2)): ")):
+                            ("F35", f35_hits, "the two cross-faded streams get out of step (vr32.c assert(odone == odone2)): "),
+                            ("F36", f36_hits, "a stage restarted in mid-call is read beyond what it holds and left below its preload; UBSan in the "
+                                              "next call (vr32.c do_input_stage shiftl(already_done, sign)): ")):
         if not hits:
             continue
         ctx.cov.setdefault("known_reproductions", {})[fid] = len(hits)
@@ -928,7 +954,7 @@ def run(ctx):
             ctx.known(fid, text + hits[0])
         elif fid != "F14":                 # a reverted F14 is already reported by san_stage with its failing input
             fails.append(dict(kind="finding:" + fid, what=text + hits[0] + "  (no active entry in known_findings.d/vr.json: recorded as "
-                              "fixed, or never listed)", ops=WITNESSES["witnessA"][0] if fid == "F13" else WITNESS_F35 if fid == "F35" else []))
+                              "fixed, or never listed)", ops=WITNESSES["witnessA"][0] if fid == "F13" else WITNESS_F35 if fid == "F35" else WITNESS_F36 if fid == "F36" else []))
 
     ctx.cov["rule"] = ("every state field of rate_t after every call equals the Lean model's (integers; doubles as bit patterns); on the "
                        "real state: step == (int64)(r*step_mult+.5) at once for slew_len 0 and once more than slew_len frames have "
